@@ -295,6 +295,110 @@ Proof.
     split; auto. destruct (nondrop out); simpl; congruence.
 Qed.
 
+(** ---- the same for every packet that is dropped without effect where it is inserted ---- *)
+
+Definition inert_at (s : state) (p : pkt) : Prop := exists d, step s (OpPkt p) = (s, ODropped d).
+
+Lemma insert_inert ops1 : forall s p ops2,
+  (forall s1 outs, run s ops1 = (s1, outs) -> terminal (last outs ONone) = true \/ inert_at s1 p) ->
+  fst (run s (ops1 ++ OpPkt p :: ops2)) = fst (run s (ops1 ++ ops2)) /\
+  filter nondrop (snd (run s (ops1 ++ OpPkt p :: ops2))) = filter nondrop (snd (run s (ops1 ++ ops2))).
+Proof.
+  induction ops1 as [|o r IH]; intros s p ops2 Hyp.
+  - simpl app. rewrite run_cons. destruct (Hyp s [] eq_refl) as [T|(d & Hd)]; [simpl in T; discriminate|].
+    rewrite Hd. simpl terminal. cbv iota. destruct (run s ops2) as [s2 outs]. simpl. auto.
+  - simpl app. rewrite !run_cons. destruct (step s o) as [s1 out] eqn:Hs.
+    destruct (terminal out) eqn:Ht; [auto|].
+    assert (Hyp1 : forall s1' outs', run s1 r = (s1', outs') -> terminal (last outs' ONone) = true \/ inert_at s1' p).
+    { intros s1' outs' Hr. specialize (Hyp s1' (out :: outs')). rewrite run_cons, Hs, Ht, Hr in Hyp.
+      specialize (Hyp eq_refl). destruct outs' as [|x outs'']; [|exact Hyp].
+      simpl in Hyp. destruct Hyp as [T|I]; [congruence | right; exact I]. }
+    destruct (IH s1 p ops2 Hyp1) as (A & B).
+    destruct (run s1 (r ++ OpPkt p :: ops2)) as [sa oa]. destruct (run s1 (r ++ ops2)) as [sb ob]. simpl in *. subst.
+    split; auto. destruct (nondrop out); simpl; congruence.
+Qed.
+
+(** Replayed or corrupted packets, whatever connection IDs they carry: a long header packet of another version; an Initial
+    that arrives after the Initial keys were dropped, that was protected with other keys than the connection's (corrupted,
+    or built for another connection ID), or whose packet number was already processed (a replay). *)
+Definition stale (s : state) (p : pkt) : Prop :=
+  match p with
+  | PLong ty ver scid keycid pn pl =>
+      ver <> version s \/
+      (ty = TInitial /\ (initDropped s = true \/ keycid <> keyCID s \/ zmem pn (initPNs s) = true))
+  | _ => False
+  end.
+
+Lemma stale_inert s p : stale s p -> inert_at s p.
+Proof.
+  destruct p as [u|ok vers|ver scid tok body tag|ty ver scid keycid pn pl]; simpl; try contradiction.
+  intros [V|(-> & H)]; unfold inert_at; simpl.
+  - apply Z.eqb_neq in V. rewrite V. simpl. eauto.
+  - destruct (ver =? version s); simpl; [|eauto]. unfold handle_long. simpl.
+    destruct (rcvFirst s && true && negb (cid_eqb scid (hsDCID s))); [eauto|].
+    rewrite andb_false_r. simpl.
+    destruct (initDropped s) eqn:D; [eauto|].
+    destruct (cid_eqb keycid (keyCID s)) eqn:K; simpl; [|eauto].
+    destruct (zmem pn (initPNs s)) eqn:M; [eauto|].
+    exfalso. destruct H as [H|[H|H]]; try congruence. apply cid_eqb_eq in K. contradiction.
+Qed.
+
+Lemma step_stale_mono s o s' out : step s o = (s', out) -> rcvFirst s = true ->
+  (initDropped s = true -> initDropped s' = true) /\
+  (forall pn, zmem pn (initPNs s) = true -> zmem pn (initPNs s') = true).
+Proof.
+  step_cases o; intros F; split; auto; try congruence;
+    intros pn0 M; simpl; rewrite ?M, ?orb_true_r; auto.
+Qed.
+
+Lemma stale_persists ops : forall s p s1 outs, rcvFirst s = true -> stale s p -> run s ops = (s1, outs) ->
+  rcvFirst s1 = true /\ stale s1 p.
+Proof.
+  induction ops as [|o r IH]; intros s p s1 outs F S H.
+  - simpl in H. inversion H; subst. auto.
+  - rewrite run_cons in H. destruct (step s o) as [sa out] eqn:Hs.
+    destruct (step_first_mono _ _ _ _ Hs F) as (Fa & Da).
+    destruct (step_static _ _ _ _ Hs) as (_ & Va & _).
+    destruct (step_stale_mono _ _ _ _ Hs F) as (Ma & Pa).
+    assert (Sa : stale sa p).
+    { destruct p as [u|ok vers|ver scid tok body tag|ty ver scid keycid pn pl]; simpl in *; try contradiction.
+      rewrite Va. destruct S as [V|(T & [D|[K|M]])].
+      - left. exact V.
+      - right. split; [exact T | left; exact (Ma D)].
+      - right. split; [exact T | right; left]. unfold decision in Da. injection Da as _ _ _ _ _ _ _ Ek _. congruence.
+      - right. split; [exact T | right; right; exact (Pa _ M)]. }
+    destruct (terminal out); [inversion H; subst; auto|].
+    destruct (run sa r) as [sb ob] eqn:Hr. inversion H; subst. eapply IH; eauto.
+Qed.
+
+Lemma forged_persists ops : forall s p s1 outs, rcvFirst s = true -> forged (client s) (hsDCID s) p -> run s ops = (s1, outs) ->
+  rcvFirst s1 = true /\ forged (client s1) (hsDCID s1) p.
+Proof.
+  induction ops as [|o r IH]; intros s p s1 outs F G H.
+  - simpl in H. inversion H; subst. auto.
+  - rewrite run_cons in H. destruct (step s o) as [sa out] eqn:Hs.
+    destruct (step_first_mono _ _ _ _ Hs F) as (Fa & _).
+    pose proof (step_first_hs _ _ _ _ Hs F) as Ha. destruct (step_static _ _ _ _ Hs) as (Ca & _).
+    assert (Ga : forged (client sa) (hsDCID sa) p) by (rewrite Ca, Ha; exact G).
+    destruct (terminal out); [inversion H; subst; auto|].
+    destruct (run sa r) as [sb ob] eqn:Hr. inversion H; subst. eapply IH; eauto.
+Qed.
+
+(** The full clause: once a packet has been authenticated, inserting — at any position of any input — any Retry, any
+    Version Negotiation packet, any malformed packet, any Initial with another SCID, any 0-RTT packet at a client, AND any
+    replayed or corrupted packet carrying the genuine connection IDs (stale) leaves the final state and all non-drop
+    outcomes unchanged. *)
+Theorem after_genuine_inert_strong ops1 s p ops2 :
+  rcvFirst s = true -> forged (client s) (hsDCID s) p \/ stale s p ->
+  fst (run s (ops1 ++ OpPkt p :: ops2)) = fst (run s (ops1 ++ ops2)) /\
+  filter nondrop (snd (run s (ops1 ++ OpPkt p :: ops2))) = filter nondrop (snd (run s (ops1 ++ ops2))).
+Proof.
+  intros F C. apply insert_inert. intros s1 outs Hr. right.
+  destruct C as [G|S].
+  - destruct (forged_persists ops1 s p s1 outs F G Hr) as (F1 & G1). exact (forged_inert_step s1 p F1 G1).
+  - destruct (stale_persists ops1 s p s1 outs F S Hr) as (_ & S1). apply stale_inert. exact S1.
+Qed.
+
 (** ---- connection-ID authentication ---- *)
 
 Lemma check_tp_iff s i od r :
